@@ -23,7 +23,7 @@ use crate::rng::Rng;
 
 const THRESHOLDS: &[f64] = &[0.0, 0.5, 0.8, 1.0, -0.0, 1.000_000_000_000_000_2, 7.5, -3.5, f64::NAN, f64::INFINITY, f64::NEG_INFINITY, 1e308, 5e-324, -1e-300];
 const GOOD_THRESHOLDS: &[f64] = &[0.0, 0.5, 0.8, 0.9, 1.0];
-const DATES: &[&str] = &["2030-01-01", "2024-12-31", "2025-1-1", "junk", "2025-13-01", "2025-02-31", "2025-01-32", "2025-00-10", "", "2025-01-01-", "70000-01-01", "+2025-01-01", "2025--01", "2025-01", " 2025-01-01", "2025-01-01 "];
+const DATES: &[&str] = &["2030-01-01", "2024-12-31", "2025-1-1", "junk", "2025-13-01", "2025-02-31", "2025-01-32", "2025-00-10", "", "2025-01-01-", "70000-01-01", "+2025-01-01", "2025--01", "2025-01", " 2025-01-01", "2025-01-01 ", "2025-02-30", "2025-04-31", "2023-02-29", "2024-02-29", "2100-02-29", "2000-02-29", "2025-06-30", "2025-11-31"];
 const DURATIONS: &[&str] = &["7d", "1w", "12h", "30m", "45s", "7x", "", "0d", "d", "99999999999999999999d", "99999999999999999w", " 7d ", "7 d", "1D"];
 const SECTIONS: &[&str] = &["summary", "Files", "breakdown", "trend", "bogus", ""];
 const BREAKDOWNS: &[&str] = &["lang", "LANGUAGE", "dir", "directory", "x", ""];
@@ -550,8 +550,18 @@ fn date_ok(s: &str) -> bool {
         let v: u128 = t.parse().ok()?;
         if v <= u128::from(max) { Some(v as u32) } else { None }
     };
+    // a date of the (proleptic Gregorian) calendar: the day exists in that month of that year
     match (num(p[0], 65535), num(p[1], 255), num(p[2], 255)) {
-        (Some(_), Some(m), Some(d)) => (1..=12).contains(&m) && (1..=31).contains(&d),
+        (Some(y), Some(m), Some(d)) => {
+            let leap = (y % 4 == 0 && y % 100 != 0) || y % 400 == 0;
+            let days = match m {
+                1 | 3 | 5 | 7 | 8 | 10 | 12 => 31,
+                4 | 6 | 9 | 11 => 30,
+                2 => if leap { 29 } else { 28 },
+                _ => 0,
+            };
+            d >= 1 && d <= days
+        }
         _ => false,
     }
 }
@@ -1119,6 +1129,9 @@ fn toml_level_case(sink: &mut Sink, rng: &mut Rng, bin: &str, scratch: &str) {
         ("empty", "", false),
         ("extends-int", "extends = 5\nversion = \"2\"\n", true),
         ("extends-sha-int", "version = \"2\"\nextends_sha256 = 5\n", true),
+        ("rules-reset-marker-alone", "version = \"2\"\n[content]\nextensions = [\"rs\"]\n[[content.rules]]\npattern = \"$reset\"\n[[content.rules]]\npattern = \"src/**\"\nmax_lines = 50\n", false),
+        ("structure-rules-reset-marker-alone", "version = \"2\"\n[structure]\nmax_files = 10\n[[structure.rules]]\nscope = \"$reset\"\n[[structure.rules]]\nscope = \"src/**\"\nmax_files = 5\n", false),
+        ("rules-reset-marker-second", "version = \"2\"\n[content]\nextensions = [\"rs\"]\n[[content.rules]]\npattern = \"src/**\"\nmax_lines = 50\n[[content.rules]]\npattern = \"$reset\"\n", true),
         ("language-no-ext", "version = \"2\"\n[languages.foo]\nextensions = []\nsingle_line_comments = [\"#\"]\n", false),
         ("language-ext-scalar", "version = \"2\"\n[languages.foo]\nextensions = \"foo\"\n", true),
     ];
